@@ -41,13 +41,13 @@ CLAIMS = {
   note=COMMON_NOTE + "Threads part proved for the lock-level LTS only (std Mutex, OS scheduler trusted). Self-unsubscription from inside the subscriber's own callback panics (BorrowMut) and is modelled as such; it is outside the property.",
   technique="Lean 4 proof (refinement to an abstract spec by induction over histories; LTS for the thread-safe form) + differential correspondence check"),
  "C07": dict(
-  text="Executable Lean model of the scheduler (Sched/Core: schedule, Remote::poll, OnceTask/RepeatTask, handles, virtual timers) and of delay/observe_on/subscribe_on/delay_subscription (Sched/Chain) tied to the real crate under a harness-controlled executor (hook H1) for FIFO and arbitrary run orders; theorem C07_fire_only_due (timers fire only when due); oracle on the implementation: never early, nothing invented/duplicated, order and completeness under FIFO. The any-run-order clause is REFUTED (known finding: per-notification tasks are not re-sequenced).",
-  note=COMMON_NOTE + "Partial: the order/prefix theorems over the chain model are not yet proved (only the scheduler-level lemma); the claim rests on the validated model + oracle for those clauses. Executor = harness queue, not LocalPool/ThreadPool.",
-  technique="Lean 4 executable model with differential correspondence under all run orders + implementation oracle (proof part: scheduler lemmas)"),
+  text='Lean 4 theorems over the chain model (scheduler Sched/Core + operators Sched/Chain) for EVERY history of emissions, clock jumps and FIFO executor runs over a hot source: C07_observeOn_fifo (the log is a prefix of the gated script, equal after a run, terminals included), C07_delay_fifo / C07_delay_order / C07_delay_after_run / C07_delay_prompt_fifo / C07_delay0_fifo (exact characterisation of what delay(d) has delivered: source order, each once, the terminal last; an error cuts pending items), C07_delay_never_early (te + d <= clock for everything delivered), C07_fire_only_due; the any-run-order clause is REFUTED in the model (C07_reorder_counterexample) and on the real code (known finding, replayed through hook H1). Correspondence: delay/observe_on/subscribe_on/delay_subscription in chains on the real crate under a harness-controlled executor, FIFO and arbitrary run orders; oracle on the implementation: never early, nothing invented/duplicated, order and completeness under FIFO.',
+  note=COMMON_NOTE + 'The theorems cover one observe_on / delay stage over a hot source under FIFO runs (unbounded histories); compositions and subscribe_on/delay_subscription rest on the validated model + oracle. Executor = harness queue, not LocalPool/ThreadPool.',
+  technique='Lean 4 proof (simulation by an abstract queue machine + invariant induction over histories; decide counterexample for non-FIFO) + differential correspondence under all run orders + implementation oracle'),
  "C08": dict(
-  text="Same scheduler model; interval / interval_at / timer / timer_at on the virtual clock under prompt schedules (unit clock steps) and arbitrary fire/poll orders and clock jumps; theorem C08_tick_seq (a continuing tick bumps the sequence counter by one); oracle on the implementation: consecutive integers, never early, spacing >= period, exact times under prompt schedules, timer once then complete.",
-  note=COMMON_NOTE + "Partial: timing theorems over the model are limited to the scheduler lemmas (C19 covers task-level never-early/at-most-once); from_future/from_stream not yet in the suite.",
-  technique="Lean 4 executable model with differential correspondence on a virtual clock + implementation oracle (proof part: scheduler lemmas)"),
+  text='Lean 4 theorems over the chain model for ARBITRARY event lists (sub, unsub, any clock jumps, any fire/poll order, run): C08_interval_seq (consecutive integers from 0, nothing else, no terminal), C08_interval_never_early(_prefix) (fewer than k+1 ticks while clock < t_sub + first + k*p), C08_interval_spacing, C08_interval_prompt (exact tick count under prompt unit steps), C08_timer_once / C08_timer_never_early / C08_timer_prompt, C08_unsub_stops_interval / _timer, C08_silent_before_sub, C08_tick_seq; async sources: C08_stream_relay / C08_stream_completes / C08_stream_promise_wf (from_stream(_result) deliver a prefix of the scripted promise whatever the polling, all of it when the driver finished, values up to the first Err then the terminal), C08_future_relay / C08_future_once, C08_async_cancelled_silent. Correspondence: interval / interval_at / timer / timer_at on the virtual clock and from_future(_result) / from_stream(_result) over scripted futures/streams (ready / pending-with-wake / pending-without-wake / error steps) on the real crate; oracle on the implementation: consecutive integers, never early, spacing, exact times under prompt schedules, timer once then complete, relay of the script.',
+  note=COMMON_NOTE + "Time theorems are over a bare source (no operator between source and probe) — operators are covered by the other properties' theorems plus the correspondence; real Instant arithmetic is replaced by the virtual clock of hook H1 (timers ask the harness for sleeps; the requested durations are compared).",
+  technique='Lean 4 proof (invariant induction over arbitrary event lists; closed forms under prompt schedules; induction over scripts for async sources) + differential correspondence on a virtual clock + implementation oracle'),
  "C12": dict(
   text="Lean 4 theorems C12_refines, C12_peek, C12_subscribe_gets_latest, C12_next_by, C12_next_stores for EVERY history over any number of clones: a new subscriber first gets the latest value, then every later item once; peek = latest; next_by f = next (f peek). Lock level (C12T): the property's concurrent clause is stated and REFUTED (C12_race_counterexample: store a, store b, broadcast b, broadcast a) and proved for a single producer (C12_threads_partial). Correspondence: BehaviorSubject over Subject and SubjectThreads, exhaustive short histories + random.",
   note=COMMON_NOTE + "The two-producer race is a property of the code's two critical sections (store, then broadcast); it is shown in the LTS, not replayed on OS threads in this revision.",
@@ -73,17 +73,17 @@ CLAIMS = {
   note=COMMON_NOTE + "The scheduler-only transition system abstracts task bodies (their own scheduling effects are separate actions); SubscribeReturn handles' is_closed is covered by the correspondence only.",
   technique="Lean 4 proof (invariants over all executor histories) + differential correspondence check on a virtual clock"),
  "C09": dict(
-  text="Executable Lean chain model of debounce / throttle (three edges) / buffer_with_time / buffer_with_count_and_time over the scheduler model, tied to the real crate on the virtual clock (prompt unit-step schedules with every gap pattern around the window, and arbitrary fire/poll orders); theorems C09_flush_nonempty, C09_buffer_bounded, C09_sample (list-level sample semantics); oracle on the implementation: only source items, each at most once, in order; buffers non-empty and within the limit; concatenation = source on completion; debounce/throttle characterisation under prompt schedules.",
-  note=COMMON_NOTE + "Partial: the subsequence theorem over whole chain runs is not yet proved in Lean; that clause rests on the validated executable model + the implementation oracle.",
-  technique="Lean 4 executable model with differential correspondence on a virtual clock + implementation oracle (proof part: buffer/sample lemmas)"),
+  text='Lean 4 theorems over the chain model for EVERY history over a hot source: C09_{buffer,debounce,throttle}_subsequence (delivered items are a subsequence of the source items), _nodup (no item twice given distinct source items), _wf (output well-formed: nothing after the terminal), C09_buffer_complete (concatenation of buffers = source on completion), C09_debounce_final / C09_throttle_trailing_final, C09_flush_nonempty, C09_buffer_bounded, C09_sample. Correspondence: debounce / throttle (three edges) / buffer_with_time / buffer_with_count_and_time / sample on the real crate on the virtual clock (prompt unit-step schedules with every gap pattern around the window, arbitrary fire/poll orders); oracle on the implementation: only source items, each at most once, in order; buffers non-empty and within the limit; debounce/throttle characterisation under prompt schedules.',
+  note=COMMON_NOTE + 'Theorems are for one rate-limiting stage over a hot source (unbounded histories, any scheduling events); compositions rest on the validated model + oracle.',
+  technique='Lean 4 proof (rate invariant preserved by every world step, induction over histories) + differential correspondence on a virtual clock + implementation oracle'),
  "C13": dict(
   text="Lean 4 theorems C13_lazy, C13_independent, C13_once_per_subscription over the multi-subscription model (a pipeline description is immutable; every actual_subscribe instantiates its own observer states): building does nothing; every subscription's log is the log of a freshly instantiated pipeline whatever other subscriptions exist; subscription-time closures run once per subscription. Correspondence: ONE real pipeline value is built and clones are subscribed 2-4 times, successively and nested, over the whole synchronous catalogue; oracle: laziness, identical logs for cold pipelines, closure-call counts.",
   note=COMMON_NOTE + "The theorems are short because the model has no shared operator state — that IS the claim; its tie to the code is the correspondence. Nested subscription is exercised for cold pipelines only.",
   technique="Lean 4 proof (induction over subscription lists) + differential correspondence check with repeated and nested subscriptions"),
  "C16": dict(
-  text="Lean 4 theorems C16_forward_op1 (is_finished is forwarded through every chain of intermediate operators), C16_take_closed/_takeWhile_closed/_contains_closed, C16_tick_declines, C16_iter_stops_when_finished over the chain model; correspondence on the virtual clock: interval as main input and as second input of every two-input operator under chains of intermediate operators and every early-terminating operator, counting iterators with `pulls` observed; oracle: no live task one period after the subscriber's terminal; no pull beyond the model's.",
-  note=COMMON_NOTE + "Known finding: skip_until's notifier observer answers is_finished()=false, so a producer in that position is never retired. from_stream producers are not in the suite yet.",
-  technique="Lean 4 proof (structural lemmas on `fin`) + executable model with differential correspondence + implementation oracle"),
+  text="Lean 4 theorems C16_forward_op1 (is_finished is forwarded through every chain of intermediate operators), C16_take_closed/_takeWhile_closed/_contains_closed, C16_tick_declines, C16_iter_stops_when_finished, C16_stream_retires / C16_stream_task_finishes (a stream driver whose observer is finished retires at its next poll without pulling) over the chain model; correspondence on the virtual clock: interval as main input and as second input of every two-input operator under chains of intermediate operators (including self-terminating ones that have not terminated) and every early-terminating operator, counting iterators and scripted streams (always ready, pending-interleaved, silent, unbounded) with `pulls` observed; oracle: no live task one period after the subscriber's terminal; no pull beyond the model's; no HANG on an unbounded stream.",
+  note=COMMON_NOTE + "Known finding: skip_until's notifier observer answers is_finished()=false, so a producer in that position is never retired. Fixed in /repo during this work: from_iter and the from_stream drivers did not ask is_finished.",
+  technique='Lean 4 proof (structural lemmas on `fin`, driver-loop lemmas) + executable model with differential correspondence + implementation oracle'),
  "C18": dict(
   text="Three-way comparison on single-threaded histories: every case of the pipeline, time, flatten, finalize, share, subject and group_by populations is run with the local and with the thread-safe types of the real crate; the two traces must be identical and agree with the single Lean model (theorems C18_equiv, C18_equiv_time record that the model has one definition for both forms).",
   note=COMMON_NOTE + "The Lean statement is shallow by design (one macro generates both forms); the assurance is the sampled differential check.",
